@@ -10,7 +10,10 @@ import json, os, re, shutil, subprocess, sys, tempfile, time, atexit, hashlib
 VERIF = os.path.dirname(os.path.dirname(os.path.dirname(os.path.abspath(__file__))))
 SPEC = os.path.join(VERIF, "spec")
 HARNESS = os.path.join(VERIF, "harness")
-EVIDENCE = os.path.join(VERIF, "evidence")
+# evidence describes runs of /verif against /repo's working tree only: a run against another tree (VERIF_REPO, used by
+# bin/seedmatrix for seeded changes) writes its record next to its scratch space, never into /verif/evidence
+EVIDENCE = os.path.join(VERIF, "evidence") if os.path.abspath(os.environ.get("VERIF_REPO", "/repo")) == "/repo" \
+    else os.path.join(os.environ.get("VERIF_SCRATCH") or "/tmp", "verif-evidence-other-tree")
 REPLAYS = os.path.join(VERIF, "replays")
 KNOWN = os.path.join(VERIF, "known_findings.jsonl")
 NCPU = os.cpu_count() or 4
